@@ -28,6 +28,7 @@ def tasks(tier, seed):
     for sl in range(32): t.append(('t1', sl, 32, tier, seed))
     for sl in range(32): t.append(('t2s', sl, 32, tier, seed))
     t.append(('t4', 0, 1, tier, seed))
+    t.append(('big', 0, 1, tier, seed))
     if tier == 'quick':
         for sk, gk in F.t3_shards(1, 1, F.T3_KINDS): t.append(('t3', 2, sk, gk, tier, seed))
         for sk, gk in F.t3_shards(0, 2, F.T3_KINDS_QUICK): t.append(('t3', 2, sk, gk, tier, seed))
@@ -56,6 +57,7 @@ def gen(task):
             g = F.t2(shared=True)
         return F.take_slice(g, task[2], task[1])
     if fam == 't4': return F.t4()
+    if fam == 'big': return F.big()
     if fam == 't3': return F.t3_shard(task[1], task[2], task[3], extra_tap=False)
     raise KeyError(fam)
 
